@@ -542,6 +542,19 @@ def check_variable_universe(ctx: Ctx, oid: str):
                 if lp.kind == "for":
                     srcs.add(ast.unparse(lp.ast.iter))
                 lp = lp.loop
+    # nothing reads n_vars before it is final: a test or an array sized from a count that still lacks the assumed
+    # variables answers for a smaller universe (n_vars == 0 although an assumption names a variable)
+    writes = [cfg.node_of(n) for n in own_nodes(f.node) if isinstance(n, (ast.Assign, ast.AugAssign)) and ast.unparse(n.targets[0] if isinstance(n, ast.Assign) else n.target) == "n_vars"]
+    wids = {w.id for w in writes}
+    early = []
+    for n in own_nodes(f.node):
+        if isinstance(n, ast.Name) and n.id == "n_vars" and isinstance(n.ctx, ast.Load):
+            rn = cfg.stmt_node_containing(n)
+            if rn.id in wids:
+                continue
+            if cfg.forward(rn) & wids:
+                early.append(n)
+    ctx.ob(oid, "R2 ORDER", f, "n_vars is read only after its last update (clauses and assumptions both counted)", not early, f"read at line {early[0].lineno if early else 0} can still be followed by an update of n_vars: the decision taken there is for a universe that lacks some variables", node=early[0] if early else f.node)
     ctx.ob(oid, "R18 table", f, "the variable count ranges over the clauses and over the assumptions", {"clauses", "assumptions"} <= srcs, f"n_vars is the maximum over {sorted(srcs)}: a literal of a variable beyond it indexes the value / watch arrays out of range (IndexError instead of a verdict)", node=f.node)
 
 
